@@ -120,6 +120,27 @@ def c03_sweep(ctx, n):
         if not ok:
             fails.append({"key": f"covariance:nested:{'anchor' if use_anchor else 'own-centre'}", "desc": "a nested collection moved as a whole (rotate + move) is not covariant",
                           "replay": {"anchor": None if anchor is None else anchor.tolist(), "quat": Q.as_quat().tolist(), "t": t.tolist(), "path_length": mlen}})
+    # the whole setup (two sources and a sensor) turned about the sensor — the anchor handed over is the sensor's LIVE position
+    # array, the same array object for every rotate call, the sensor itself included — and then shifted: the sensor reads the same
+    for i in range(max(4, n // 8)):
+        nps = np.random.default_rng(rng.randrange(2**31))
+        objs = [make(rng.choice(CLASSES), nps), make(rng.choice(CLASSES), nps)]
+        for o in objs:
+            o.position, o.orientation = nps.uniform(-2, 2, 3), R.random(rng=nps)
+        sens = magpy.Sensor(position=far_points(nps, 1, lo=5, hi=8)[0], orientation=R.random(rng=nps), pixel=nps.uniform(-0.3, 0.3, (2, 3)))
+        f0 = magpy.getB(objs, sens, squeeze=False)
+        Q, t = R.random(rng=nps), nps.uniform(-3, 3, 3)
+        order = [sens] + objs if rng.random() < 0.5 else objs + [sens]
+        for o in order:
+            o.rotate(Q, anchor=sens.position)
+        for o in order:
+            o.move(t)
+        f1 = magpy.getB(objs, sens, squeeze=False)
+        done += 1
+        per["live-anchor-setup"] = per.get("live-anchor-setup", 0) + 1
+        if not _close(f1, f0, float(np.max(np.abs(f0))) + 1e-300, 1e-7):
+            fails.append({"key": "covariance:live-anchor", "desc": "sources and sensor turned about the sensor (anchor = the sensor's live position array) and shifted together: the sensor reading changed",
+                          "replay": {"quat": Q.as_quat().tolist(), "t": t.tolist(), "order": [type(o).__name__ for o in order]}})
     # the same compound placed through the pose setters / copy keywords: a compound built in its own frame (collection pose =
     # identity) and then given orientation Q and position t must produce Q B_local(Q^-1 (x - t)) — at every nesting level
     for i in range(max(6, n // 6)):
